@@ -26,14 +26,14 @@ import (
 //   (iii) every secret field of the returned copy is "" or the placeholder.
 
 type vpC35Spec struct {
-	secrets []string // values in the fixed order used by vpC35Build
-	nPeers  int
-	nLst    int
-	nUsers  int
-	other   []string // hostile values for non-secret string fields
-	durs    []int64
-	flts    []float64
-	ptrs    []int // 0 nil, 1 false, 2 true
+	secrets  []string // values in the fixed order used by vpC35Build
+	nPeers   int
+	nLst     int
+	nUsers   int
+	other    []string // hostile values for non-secret string fields
+	durs     []int64
+	flts     []float64
+	ptrs     []int // 0 nil, 1 false, 2 true
 	presence string
 }
 
